@@ -1,3 +1,21 @@
+// verification hooks: re-export of module-private items (add-only, feature `verif`)
+#[cfg(feature = "verif")]
+#[allow(unused_imports)]
+pub mod verif_export {
+    pub mod buffer {
+        pub use super::super::buffer::*;
+    }
+    pub mod executor {
+        pub use super::super::executor::*;
+    }
+    pub mod batch_merging {
+        pub use super::super::batch_merging::*;
+    }
+    pub mod scratchpad {
+        pub use super::super::scratchpad::*;
+    }
+}
+
 pub mod query_task;
 mod buffer;
 mod executor;
